@@ -1424,6 +1424,8 @@ func plRunScenario(w *plWorld, sc *plScenario, amap map[string]*plDef, emit func
 			ts += 1 << 31
 		case "max":
 			ts = 0xffffffff
+		case "near":
+			ts = 0xfffffe40 // 448 ms before the 32-bit timestamp wraps
 		case "dec":
 			ts -= 20
 		}
